@@ -17,7 +17,7 @@ from mc.core import HarnessError
 
 MON = sys.monitoring
 TOOL = 3  # a free tool id (0 debugger, 1 coverage, 2 profiler, 5 optimizer are conventional)
-WATCHDOG_S = 30.0
+WATCHDOG_S = 300.0
 
 
 class Abort(BaseException):
